@@ -95,7 +95,16 @@ func newVTX(c *Ctx, rule string) *vtx {
 	x.viewportWidth, x.viewportHeight, x.termWidth, x.termHeight = fld("viewportWidth"), fld("viewportHeight"), fld("termWidth"), fld("termHeight")
 	x.curFg, x.curBg, x.defaultFg, x.defaultBg, x.tabWidth = fld("curFg"), fld("curBg"), fld("defaultFg"), fld("defaultBg"), fld("tabWidth")
 	meth := func(n string) *ssa.Function { return m.lookupMethod(tty, "VT", n) }
-	x.writeByte, x.doWrite, x.cr, x.lf, x.setCursor, x.update, x.setState, x.att = meth("WriteByte"), meth("doWrite"), meth("cr"), meth("lf"), meth("SetCursorPosition"), meth("updateDataOffset"), meth("SetState"), meth("AttachTo")
+	x.writeByte, x.doWrite, x.lf, x.setCursor, x.setState, x.att = meth("WriteByte"), meth("doWrite"), meth("lf"), meth("SetCursorPosition"), meth("SetState"), meth("AttachTo")
+	// helpers the property does not name, by role when renamed: the parameterless
+	// method that recomputes dataOffset, and the parameterless method that moves
+	// the cursor to column one
+	x.update = m.methodByRole(tty, "VT", "updateDataOffset", func(fn *ssa.Function) bool {
+		return nParams(fn) == 0 && storesField(fn, x.dataOffset) && !storesField(fn, x.cursorX) && !storesField(fn, x.cursorY)
+	})
+	x.cr = m.methodByRole(tty, "VT", "cr", func(fn *ssa.Function) bool {
+		return nParams(fn) == 0 && storesField(fn, x.cursorX) && !storesField(fn, x.cursorY) && !storesField(fn, x.dataOffset)
+	})
 	sa := m.lookupConst(tty, "StateActive")
 	for name, v := range map[string]interface{}{
 		"tty.VT": x.vt, "VT.cons": x.cons, "VT.data": x.data, "VT.cursorX": x.cursorX, "VT.cursorY": x.cursorY, "VT.viewportY": x.viewportY,
